@@ -33,7 +33,9 @@ TReset ==
   /\ Setup(E.entries)
   /\ IF E.ok = built'.ok /\ E.bad = built'.bad THEN TRUE
      ELSE Reject(<<"builder answered", E.ok, E.bad, "specification", built'.ok, built'.bad>>)
-  /\ IF dev_plain' THEN Known("CF18", E.entries[E.bad].s) ELSE TRUE
+  /\ IF dev_plain'            \* deviation CF18: reported once per validation run
+     THEN (IF TLCGet(18) = 0 THEN Known("CF18", E.entries[E.bad].s) ELSE TRUE) /\ TLCSet(18, 1)
+     ELSE TRUE
 
 Max(a, b) == IF a >= b THEN a ELSE b
 
@@ -96,7 +98,7 @@ TraceNext ==
        [] E.ev = "timeout"   -> TTimeout
        [] OTHER -> FALSE     \* refused / connect timeout / panic / unknown: not a behaviour
 
-TraceInit == Init /\ l = 1
+TraceInit == Init /\ l = 1 /\ TLCSet(18, 0)
 TraceSpec == TraceInit /\ [][TraceNext]_tvars
 TraceAccepted ==
   LET d == TLCGet("stats").diameter IN
